@@ -335,7 +335,11 @@ func vh02ClientRunNeg(o *vhOut, proposed, granted uint32, stream []byte, pend []
 		o.Emit(map[string]interface{}{"kind": "flag", "id": vh02id, "what": "client-negotiated: NewClient over a scripted Rversion", "ok": false, "pos": rd.pos})
 		return
 	}
-	vh02ClientDrive(o, "client-negotiated", granted, c, rd, stream, pend, max)
+	limit := granted // the msize of the session: what the server announced, never more than what the client proposed
+	if proposed < limit {
+		limit = proposed
+	}
+	vh02ClientDrive(o, "client-negotiated", limit, c, rd, stream, pend, max)
 }
 
 func vh02ClientDrive(o *vhOut, what string, msize uint32, c *Client, rd *vh02Reader, stream []byte, pend []vh02Pending, max int) {
@@ -644,9 +648,10 @@ func TestVerifC02(t *testing.T) {
 	}
 	// 6b. the limit is the msize of the SESSION: a client that proposed more and was granted less refuses (at the header) a
 	// reply longer than what was granted
-	for _, pg := range [][2]uint32{{8192, 200}, {65536, 4096}, {8192, 8191}, {4096, 4096}} {
+	// ... and a server that announces MORE than was proposed does not raise it either (the last two pairs)
+	for _, pg := range [][2]uint32{{8192, 200}, {65536, 4096}, {8192, 8191}, {4096, 4096}, {4096, 8192}, {8192, 1 << 20}} {
 		proposed, granted := pg[0], pg[1]
-		for _, total := range []uint32{granted - 1, granted, granted + 1, granted + 12, proposed, proposed + 1} {
+		for _, total := range []uint32{granted - 1, granted, granted + 1, granted + 12, proposed - 1, proposed, proposed + 1, proposed + 12} {
 			if total > 70000 {
 				continue
 			}
